@@ -1934,6 +1934,9 @@ func runSession(run *vk.Run, idx uint64, thorough bool) {
 }
 
 func main() {
+	if mode, ok := vk.InChild(); ok && mode == "e2e" {
+		e2eChild()
+	}
 	run := vk.Start("C20")
 	diskwriter.Directory = filepath.Join(run.Scratch, "rec")
 	group.Directory = filepath.Join(run.Scratch, "groups")
@@ -1941,7 +1944,7 @@ func main() {
 	os.MkdirAll(group.Directory, 0o755)
 	run.MaxReplays = 40
 
-	rule := "sessions generated from (seed, index): codec set x delivery class (in order / reordered <= 10 packets / duplicated / withheld-but-cached / withheld-and-lost / mixed / late start) x sender-report timing per track (before, midstream and repeated, never) x seqno and timestamp wrap x packets-per-frame class x end (departure, Close); each session drives the real diskwriter through conn.Up/UpTrack/DownTrack and its file is read back with an independent EBML reader; distinct_nontrivial = distinct (codecs, delivery class, SR timing, wrap flags, packets-per-frame class) among sessions whose recording holds at least one block"
+	rule := "sessions generated from (seed, index): codec set x delivery class (in order / reordered <= 10 packets / duplicated / withheld-but-cached / withheld-and-lost / mixed / late start) x sender-report timing per track (before, midstream and repeated, never) x seqno and timestamp wrap x packets-per-frame class x end (departure, Close); each session drives the real diskwriter through conn.Up/UpTrack/DownTrack and its file is read back with an independent EBML reader; distinct_nontrivial = distinct (codecs, delivery class, SR timing, wrap flags, packets-per-frame class) among sessions whose recording holds at least one block. An end-to-end tier (e2e.go) then has the real server record id-tagged multi-packet VP8 (+ Opus) streams published over SRTP (record/unrecord over the websocket, pion publisher, packet cache and writer pool in front of the diskwriter, seqno and timestamp wraps, four ways of ending) and judges every block of the WebM files it leaves behind against the frames sent (counters e2e_*)"
 
 	if rep, ok := vk.ReplayInput(); ok {
 		if sd, ok := rep["seed"].(float64); ok {
@@ -1951,6 +1954,8 @@ func main() {
 			if si, ok := m["session"].(float64); ok {
 				th, _ := m["thorough"].(bool)
 				runSession(run, uint64(si), th)
+			} else {
+				e2eReplay(run, m)
 			}
 		}
 		reportViolations(run)
@@ -1987,6 +1992,7 @@ func main() {
 	}
 	wg.Wait()
 	reportViolations(run)
+	e2eTier(run)
 
 	run.FloorCounter("sessions", int64(n*9/10))
 	run.FloorCounter("blocks_verified_exact", int64(run.Pick(5000, 200000)))
